@@ -1174,6 +1174,22 @@ class Interp:
                 else:
                     return "<fstring>"
             return "".join(parts)
+        if isinstance(e, ast.GeneratorExp) and getattr(self.sc, "lazy_generators", False):
+            # a generator expression is lazy: its outermost iterable is evaluated now, everything else when the consumer asks for an item
+            first = self._iterable(self.eval(e.generators[0].iter, env, m))
+
+            def _items(k, env_, first=first):
+                if k == len(e.generators):
+                    yield self.eval(e.elt, env_, m)
+                    return
+                g = e.generators[k]
+                it_ = first if k == 0 else self._iterable(self.eval(g.iter, env_, m))
+                for item in it_:
+                    env2 = dict(env_)
+                    self.assign(g.target, item, env2, m)
+                    if all(self.truth(self.eval(c_, env2, m)) for c_ in g.ifs):
+                        yield from _items(k + 1, env2)
+            return _items(0, env)
         if isinstance(e, (ast.ListComp, ast.GeneratorExp, ast.SetComp, ast.DictComp)):
             rows: List[Any] = []
 
@@ -1244,8 +1260,8 @@ class Interp:
         return v
 
     def _hashable(self, k):
-        if isinstance(k, EnumMember):
-            return (k.enum, k.name)
+        # (an enumeration member is hashable and equal by enumeration, name and value: it is its own key, also for the builtin
+        # dictionary methods - get, pop, setdefault - that the interpreted code calls directly)
         return k
 
     def compare(self, op, a, b):
@@ -1341,6 +1357,8 @@ class Interp:
     def global_name(self, name, m):
         if name in ("int", "float", "str", "tuple", "list", "bool", "dict", "set", "frozenset", "bytes", "setattr", "slice", "bytearray", "complex", "object", "type"):
             return ("external", "builtins." + name)
+        if name in self._BUILTIN_EXC_BASE or name in ("Exception", "BaseException"):
+            return ("external", "builtins." + name)  # an exception class named as a value (suppress(KeyError), a tuple of classes)
         r = self.repo.resolve(m, name)
         if r is None:
             # a module-level name bound by tuple unpacking: `A, B = <expr>`
@@ -1543,6 +1561,9 @@ class Interp:
                 return o.value
             if attr == "name":
                 return o.name
+        if isinstance(o, tuple) and o and o[0] == "external" and o[1].startswith("builtins.") and attr in ("__name__", "__qualname__", "__mro__"):
+            n_ = o[1].split(".", 1)[1]
+            return n_ if attr != "__mro__" else tuple(("external", "builtins." + x_) for x_ in ([n_] + (["int"] if n_ == "bool" else []) + (["object"] if n_ != "object" else [])))
         if isinstance(o, tuple) and o and o[0] == "external":
             if o[1] + "." + attr in ("numpy.pi", "math.pi"):
                 return math.pi
@@ -1551,9 +1572,6 @@ class Interp:
             if attr == "__doc__":
                 return None
             return o[2].name if o[0] == "func" else o[1].name if o[0] == "closure" else o[2]
-        if isinstance(o, tuple) and o and o[0] == "external" and o[1].startswith("builtins.") and attr in ("__name__", "__qualname__", "__mro__"):
-            n_ = o[1].split(".", 1)[1]
-            return n_ if attr != "__mro__" else tuple(("external", "builtins." + x_) for x_ in ([n_] + (["int"] if n_ == "bool" else []) + (["object"] if n_ != "object" else [])))
         if isinstance(o, tuple) and o and o[0] == "class":
             c = o[1]
             if attr in ("__name__", "__qualname__"):
@@ -1598,7 +1616,9 @@ class Interp:
             return o.T
         if isinstance(o, RegSym) and attr == "name":
             return ("external", "RegisterName.Q")
-        if isinstance(o, (str, list, set, dict, bytes, bytearray, tuple, frozenset)) and not attr.startswith("_") and hasattr(o, attr) and not (isinstance(o, tuple) and o and isinstance(o[0], str) and o[0] in ("class", "func", "external", "boundmethod", "closure", "lambda", "partial", "classmethod", "module")):
+        if isinstance(o, (list, set, dict, frozenset)) and attr == "__contains__":
+            return lambda x_, o_=o: self.compare(ast.In(), x_, o_)  # membership as the interpreter decides it (value equality of its objects)
+        if isinstance(o, (str, list, set, dict, bytes, bytearray, tuple, frozenset)) and (not attr.startswith("_") or attr in ("__getitem__", "__len__", "__iter__", "__contains__")) and hasattr(o, attr) and not (isinstance(o, tuple) and o and isinstance(o[0], str) and o[0] in ("class", "func", "external", "boundmethod", "closure", "lambda", "partial", "classmethod", "module")):
             return getattr(o, attr)
         if isinstance(o, slice) and attr in ("start", "stop", "step"):
             return getattr(o, attr)
@@ -1685,6 +1705,9 @@ class Interp:
                 return callable(args[0]) or (isinstance(args[0], tuple) and bool(args[0]) and args[0][0] in ("func", "boundmethod", "closure", "lambda", "class", "classmethod", "partial", "external"))
             if fname == "repr" and len(args) == 1 and isinstance(args[0], (int, str, float, type(None), tuple, list)):
                 return repr(args[0])
+            if fname in ("len", "list", "tuple", "iter", "sorted", "reversed", "enumerate", "set") and args and isinstance(args[0], tuple) and len(args[0]) == 2 and args[0][0] == "class" \
+                    and isinstance(args[0][1], ClassInfo) and self.ev.is_enum(args[0][1]):
+                args = [self._iterable(args[0])] + list(args[1:])  # an enumeration class is the sequence of its members
             if fname in ("bytes", "len", "int", "bool", "iter", "list", "tuple") and len(args) == 1 and isinstance(args[0], Obj) and args[0].cls is not None:
                 # the conversion protocols of a class of the repository
                 dunder = {"bytes": "__bytes__", "len": "__len__", "int": "__int__", "bool": "__bool__", "iter": "__iter__", "list": "__iter__", "tuple": "__iter__"}[fname]
@@ -1968,6 +1991,12 @@ class Interp:
                     kf_ = args[1] if len(args) > 1 else kwargs.get("key")
                     call_ = (lambda x_: x_) if kf_ is None else kf_ if callable(kf_) else (lambda x_, p_=kf_: self.apply(p_, [x_], {}, node, m))
                     return [(k_, list(g_)) for k_, g_ in _it.groupby(self._iterable(args[0]), call_)]
+                if name.startswith("builtins.") and name.split(".")[1] in ("list", "dict", "set", "tuple", "int", "float", "str", "bool", "frozenset", "bytes", "bytearray"):
+                    try:
+                        return {"list": list, "dict": dict, "set": set, "tuple": tuple, "int": int, "float": float, "str": str, "bool": bool, "frozenset": frozenset,
+                                "bytes": bytes, "bytearray": bytearray}[name.split(".")[1]](*[self._iterable(a_) if isinstance(a_, (list, tuple)) else a_ for a_ in args], **kwargs)
+                    except (ValueError, TypeError) as ex_:
+                        raise EvalRaise(type(ex_).__name__, str(ex_))
                 if name == "dataclasses.field":
                     return ("dcfield", kwargs.get("default"), kwargs.get("default_factory"), "default" in kwargs)
                 if name == "contextlib.suppress":
